@@ -42,6 +42,87 @@ func runC03(p *core.Prog, r *core.Report) {
 	c08R1(p, r, "C03.R8")
 	c08R2(p, r, "C03.R9")
 	c03R6(p, r)
+	c03R10(p, r)
+	// referrers are part of the image when asked for: what the client learned about the referrers API of one repository answers for that repository only (shared with C10.R8)
+	structKeyRule(p, r, "C03.R11")
+}
+
+// c03R10: the copy skips what the target already has, and asks the target with a head request. A
+// layout answers "present" only after looking at the file: an index entry whose blob is gone is not
+// a manifest the target has.
+func c03R10(p *core.Prog, r *core.Report) {
+	const rule = "C03.R10"
+	r.Rule(rule, "a layout's head request looks at the file: in scheme/ocidir ManifestHead and BlobHead no success return is reachable from the entry without passing the nil-error edge of a file-system read of the content (os.Stat, os.Open, os.ReadFile)", 2)
+	isRead := func(f *types.Func) bool {
+		return isOS(f, "Stat") || isOS(f, "Open") || isOS(f, "ReadFile") || isOS(f, "Lstat")
+	}
+	for _, name := range []string{"ManifestHead", "BlobHead"} {
+		fn := p.Method(ocidirRel, "OCIDir", name)
+		if fn == nil {
+			r.MissingAnchor(rule, ocidirRel+".(*OCIDir)."+name)
+			continue
+		}
+		unit := core.Helpers(fn, 2)
+		// the reads, in the function or in helpers it calls (a helper counts at its call site)
+		var reads []*ssa.Call
+		// a read of the content: the path names the blob directory
+		blobRead := func(c ssa.CallInstruction) bool {
+			if !isRead(core.Callee(c)) || len(c.Common().Args) == 0 {
+				return false
+			}
+			for _, l := range pathLeaves(c.Common().Args[0]) {
+				if sv, ok := core.ConstString(l); ok && strings.Contains(sv, "blobs") {
+					return true
+				}
+			}
+			return false
+		}
+		core.Calls(fn, func(c ssa.CallInstruction) {
+			call, ok := c.(*ssa.Call)
+			if !ok {
+				return
+			}
+			if blobRead(c) {
+				reads = append(reads, call)
+				return
+			}
+			if g := core.CalleeFn(c); g != nil && g != fn && unit[g] {
+				res := g.Signature.Results()
+				has := false
+				core.Calls(g, func(gc ssa.CallInstruction) { has = has || blobRead(gc) })
+				if res.Len() > 0 && isErrType(res.At(res.Len()-1).Type()) && has {
+					reads = append(reads, call)
+				}
+			}
+		})
+		stopEdge := func(from, to *ssa.BasicBlock) bool {
+			for _, rd := range reads {
+				for _, e := range nilEdgesOf(fn, rd) {
+					if e[0] == from && e[1] == to {
+						return true
+					}
+				}
+			}
+			return false
+		}
+		seen := core.Reach{StopEdge: stopEdge}.FromEntry(fn)
+		bad := ""
+		for _, ret := range core.Returns(fn) {
+			if !seen[ret] || len(ret.Results) < 2 {
+				continue
+			}
+			// a return that can report success: its error is not known to be non-nil
+			if !failureReturn(fn, ret) {
+				bad = p.Pos(ret.Pos())
+			}
+		}
+		r.Check(bad == "" && len(reads) > 0, rule, p.FuncName(fn), "presence decided by the file", p.Pos(fn.Pos()),
+			"the return at "+bad+" can report the content as present without any look at the file: an entry that index.json lists but whose blob is missing is answered as present, and a copy onto such a target reports success without writing the manifest")
+	}
+}
+
+func isErrorBuilder(f *types.Func) bool {
+	return f != nil && (core.IsFunc(f, "fmt", "Errorf") || core.IsFunc(f, "errors", "New") || core.IsFunc(f, "errors", "Join"))
 }
 
 // getterCalls returns the invoke calls of the named interface method in fn and its closures.
